@@ -45,6 +45,9 @@ def main():
     for sid, prop, title, needs, f, fc, l, lc in rows:
         fs = "-" if f is None else ("DETECTED" if f else "missed")
         ls = "-" if l is None else ("DETECTED " + lc if l else "missed")
+        tri = json.load(open(os.path.join(ROOT, "seeded", sid, "meta.json"))).get("lead_triage")
+        if tri and not l:
+            ls += " — " + str(tri).replace("|", "/")
         out.append("| %s | %s | %s | %s | %s | %s |" % (sid, prop, title.replace("|", "/"), needs.replace("|", "/"), fs, ls))
     nfirst = sum(1 for r in rows if r[4] is not None)
     dfirst = sum(1 for r in rows if r[4])
